@@ -172,8 +172,10 @@ class Compiler:
         # id of next temporary pattern
         next_temp = -1
         # First number rule names
+        all_temp_pats = []
         for rule in self.lvs.rules:
             temp_pats = {}
+            all_temp_pats.append(temp_pats)
             # First number all patterns in name
             for c in rule.name.p:
                 if not isinstance(c, psr.Pattern):
@@ -196,7 +198,9 @@ class Compiler:
                         c.id = str(next_named)
                         next_named += 1
                         self.named_pats[pid] = c.id
-            # Now adapt constraints
+        # Now adapt constraints. This is done after the names of all rules are numbered,
+        # so a constraint can refer to a pattern that only occurs in a rule sorted later.
+        for rule, temp_pats in zip(self.lvs.rules, all_temp_pats):
             for cons_set in rule.comp_cons:
                 for cons in cons_set:
                     try:
